@@ -786,7 +786,11 @@ def mon_c14(run, case, stmts):
                     run.v("C14", "callback_result_while_outstanding", str(st), f"{o['path']}: result() delivered {_fmt(o)} while the callback is {st}")
             else:
                 if st == "SUCCEEDED":
-                    want = json.loads(op["Result"]) if op.get("Result") is not None else None
+                    if (stmts.get(o["path"]) or {}).get("serdes") == "text":
+                        # custom result serializer for plain text: every recorded string (the empty one too) is decoded by it
+                        want = ["text", op["Result"]] if op.get("Result") is not None else None
+                    else:
+                        want = json.loads(op["Result"]) if op.get("Result") is not None else None
                     if o["out"] != "value" or not teq(o["value"], want):
                         run.v("C14", "invoke_result_wrong", "SUCCEEDED", f"{o['path']}: delivered {_fmt(o)}, invoked function returned {want!r}")
                 elif st in TERMINAL:
